@@ -1,7 +1,7 @@
 """C05 - fragment ion series obey the chemistry of peptide backbone cleavage."""
 import json
 
-from .. import core, annot, translate_tables
+from .. import core, annot, translate_tables, translate_masscore
 from . import c02_common as cm
 from . import c02 as c02h
 
@@ -10,14 +10,15 @@ DRV = 'drv_c05'
 
 REGISTRY = {
     'id': 'C05',
-    'text': 'Lean (9 theorems): every generated ion-offset table entry (18 ion types, both modes) equals the offset built from CO, NH3, H2, '
+    'text': 'Mechanical tie for the arithmetic core: harness/translate_masscore.py reads the CURRENT source with ast and emits Generated/MassCorePy.lean (adjust_mass, adjust_mz, _parse_adduct_mass from mass_calc.py; chem_mass (dict argument) with its loop body from chem_util.py; merge_dicts with its two loops from util.py); Props/C02Gen (6 theorems) proves each equal to the hand model (GenMass.adjust_mass = Mass.adjustMass, adjust_mz = Mass.adjustMz, _parse_adduct_mass = Mass.adductMassP, chem_mass_loop1 = Chem.chemStep, chem_mass = Chem.chemMass, merge_dicts = Chem.merge for a first dict with distinct keys), so the theorems below hold for the definitions read off the source; hand-modelled only (tied by correspondence): mass, mz, comp_mass and the label path, _parse_charge_adducts_mass (isinstance dispatch), parse_ion_elements, parse_static_mods, the text branch of chem_mass; a function outside the translator subset is reported as untranslated and falls back to correspondence. '
+            'Lean (9 theorems): every generated ion-offset table entry (18 ion types, both modes) equals the offset built from CO, NH3, H2, '
             'H2O and the H-minus-electron charge carrier (ion_offsets_ok, adjust_tables_ok: kernel evaluation over the generated tables), '
             'and for the executable model of mass(ion_type=...), exactly over Q, for all sequences, positions, modifications, charges, '
             'isotope offsets, losses and both modes: b_plus_y (b_i + y_(n-i) = M + 2h), forward_series_offsets (a = b - CO, c = b + NH3), '
             'backward_series_offsets (x = y + CO - H2, z = y - NH3), internal_offsets (nine series = by + pair of terminal offsets), '
             'immonium_mass, charge_step (+PROTON_MASS per charge), mod_locality. The same relations are evaluated on the real '
             'fragment() / mass() output against a hand-typed atomic-mass table at 1e-5 Da',
-    'note': 'trusted: Lean kernel; translator; hand-typed NIST/CODATA data; fragment() itself is not modelled here (C04) - every fragment '
+    'note': 'trusted: Lean kernel; the Python subset reader harness/translate_masscore.py (its output Generated/MassCorePy.lean is committed and readable next to the source; round(x, p) is read as round-half-even on the exact rational, floats as exact rationals); translator; hand-typed NIST/CODATA data; fragment() itself is not modelled here (C04) - every fragment '
             'it returns is re-computed by the model of mass() from the fragment\'s own sequence text (correspondence) and checked '
             'directly by the oracle; which fragment annotations contain a residue (slicing) is C07/C11',
     'technique': 'Lean 4 proof about executable model + generated tables checked by kernel evaluation + differential correspondence '
@@ -76,7 +77,17 @@ def run(chk):
     rng = chk.rng
     tier = chk.tier
     translate_tables.translate(chk)
-    chk.lean_build(['PeptVerif.Props.C05'], DRV)
+    # adjust_mass / adjust_mz (where the ion offsets enter) read mechanically from the source
+    gen_done, gen_unt = translate_masscore.translate(chk)
+    chk.lean_build(['PeptVerif.Props.C05', 'PeptVerif.Props.C02Gen'], DRV)
+    chk.trusted += [
+        'harness/translate_masscore.py: the reading of the Python subset (None defaults, = += -=, d[k] = v, if/elif/else on == != in-tuple '
+        'in-TABLE is-True is-None and Python truthiness, or, + - * /, conditional expressions, TABLE[key] as KeyError, round -> '
+        'round-half-even on the exact rational, x[0].isdigit(), d.get(k, 0), for k, v in d.items() with continue, dict comprehension '
+        'filter, return, raise) into the combinators of the hand model; translated on this run: %s; hand-modelled only: '
+        '_parse_charge_adducts_mass (isinstance dispatch), parse_ion_elements, mass, mz, comp_mass and the label path%s'
+        % (', '.join(gen_done) or 'none', ''.join(', ' + k for k in gen_unt)),
+    ]
     chk.trusted += [
         'modelled: mass/adjust_mass with the ion-type tables (Model/Mass.lean, Model/Chem.lean); fragment() is not modelled here: every '
         'fragment it returns is re-computed by the model from the fragment\'s own sequence text (correspondence) and checked by the oracle',
